@@ -435,6 +435,7 @@ theorem wellTyped_any_aux (gen : Bool) (hws : w.SupU gen) :
           rw [wellTyped] at hwt
           have hel := (wellTypedKV_iff w kt vt kvs).mp hwt
           simp only [Ty.supU, Bool.and_eq_true] at hs
+          replace hs := hs.1
           simp at hx
           rw [wellTypedAny]
           refine (wellTypedAnyKV_iff w kvs).mpr (fun p hp => ?_)
@@ -582,6 +583,7 @@ theorem prim_aux (hws : w.SupU cfg.gen) :
           exact hNT c fs (by omega) hnt hwt
         · rw [if_neg hnt] at hwt ⊢
           exact hInst c fs (by omega) hwt
+      | mdict d kvs => simp [wellTypedAny] at hwt
       | _ => simp [unAny, Obj.prim]
     refine ⟨hAny, ?_⟩
     intro m
@@ -660,6 +662,7 @@ theorem prim_aux (hws : w.SupU cfg.gen) :
           rw [wellTyped] at hwt
           have hel := (wellTypedKV_iff w kt vt kvs).mp hwt
           simp only [Ty.supU, Bool.and_eq_true] at hs
+          replace hs := hs.1
           simp at hx
           rw [un]
           split
